@@ -46,7 +46,12 @@ SIM_SCENARIO(scen_c07, "c07", "C07", 8000000, 40000) {
     // stages, the others are fast (a late item overtakes many earlier ones); 2 the last stage is slow for item 1
     int delay_shape = (int)sim::draw(4, "delay_shape");
     if (deep) { delay_shape = 3; if (maxdelay < 40) maxdelay = 40; conc = sim::draw_bool("deep_arena") ? 12 : 0; }   // 3: most items slow in the middle stages, a few fast ones overtake them
-    d.add(hx::fmt("pipeline filters=%s tokens=%d items=%d maxdelay=%d delay_shape=%d arena=%d", ms.c_str(), ntokens, nitems, maxdelay, delay_shape, conc));
+    // "all token limits >= 1": now and then a limit beyond 2^31 / 2^32 (the usual 'unlimited' idioms); the number of items in
+    // flight is then bounded by the item count only
+    static const size_t huge_limits[] = {(size_t)1 << 31, ((size_t)1 << 32) - 1, (size_t)1 << 40, (size_t)1 << 63, ~(size_t)0};
+    size_t token_limit = (!deep && sim::draw(8, "huge_limit") == 0) ? huge_limits[sim::draw(5, "which_huge")] : (size_t)ntokens;
+    if (token_limit != (size_t)ntokens && nitems > 17) nitems = 17;
+    d.add(hx::fmt("pipeline filters=%s tokens=%zu items=%d maxdelay=%d delay_shape=%d arena=%d", ms.c_str(), token_limit, nitems, maxdelay, delay_shape, conc));
     d.publish();
 
     std::vector<StageLog> st(nfilters);
@@ -86,7 +91,7 @@ SIM_SCENARIO(scen_c07, "c07", "C07", 8000000, 40000) {
             int item = ++emitted;
             int live = emitted - retired;
             if (live > live_max) live_max = live;
-            SIM_CHECK(live <= ntokens, "oracle:token-limit", "%d items in flight, max_number_of_live_tokens is %d", live, ntokens);
+            SIM_CHECK((size_t)live <= token_limit, "oracle:token-limit", "%d items in flight, max_number_of_live_tokens is %zu", live, token_limit);
             SIM_CHECK(!passed[0][item], "oracle:item-twice", "item %d produced twice", item);
             passed[0][item] = 1; st[0].order.push_back(item);
             delay(item, 0);
@@ -102,7 +107,7 @@ SIM_SCENARIO(scen_c07, "c07", "C07", 8000000, 40000) {
         tbb::filter<void, void> whole = chain & tbb::make_filter<int, void>(modes[lastf], [&, lastf](int item) {
             enter(lastf, item); delay(item, lastf); leave(lastf, item); ++retired;
         });
-        tbb::parallel_pipeline((size_t)ntokens, whole);
+        tbb::parallel_pipeline(token_limit, whole);
         call_returned = true;
     };
     if (conc) { tbb::task_arena a(conc); a.execute(run); } else run();
